@@ -197,6 +197,9 @@ func (r *replicator) processOne(ctx context.Context, wg *sync.WaitGroup) error {
 	// wait for a process slot
 	e, err := r.waitForProcessSlot(ctx)
 	if err != nil {
+		// no slot was obtained (request cancelled): every worker stands for exactly
+		// one queued item, so give one back instead of leaving it queued forever
+		r.dropQueuedItem()
 		return err
 	}
 
@@ -329,6 +332,23 @@ func (r *replicator) waitForProcessSlot(ctx context.Context) (e processItem, err
 
 	r.muProcess.Unlock()
 	return
+}
+
+// dropQueuedItem removes one item from the queue, and its task entry, on behalf
+// of a worker that gave up before processing anything
+func (r *replicator) dropQueuedItem() {
+	r.muProcess.Lock()
+	defer r.muProcess.Unlock()
+
+	if r.queue.Len() > 0 {
+		item := r.queue.Next()
+		delete(r.tasks, item.GetHash())
+	}
+
+	// if there no more task to proceed, trigger idle method
+	if r.isIdle() {
+		r.idle()
+	}
 }
 
 func (r *replicator) processEntryDone(item processItem) {
